@@ -122,6 +122,18 @@ CLAIMED = {
             'as a state machine against the same model for maxsize 1..5.',
             'callables are importable (vlib/targets.py); cache keys modelled by structural equality of the expression.',
             '§3 C17'),
+    'C04': ('exploration',
+            'schedule-as-data exploration: Hypothesis generates queue configurations and thread schedules executed by a deterministic scheduler; history-invariant oracle; deadlocks decided structurally',
+            'Every lock, condition, queue, thread and pool of iter_utils is replaced (by rebinding module attributes, no source '
+            'change) with shims of a baton-passing scheduler, so the interleaving is generated data: explicit preemption choices + '
+            'seeded walk, PCT priority schedules and the non-preemptive baseline. 1..3 producers x buffer 0..3 x 1..3 consumers in '
+            'four modes are run under thousands of distinct schedules; the oracle checks exactly-once delivery, per-producer order, '
+            'termination of every consumer with all return values, producers returning, and that no explored schedule ends with a '
+            'blocked thread (a lost wake-up is a structural deadlock, not a timeout). This is exploration of sampled interleavings, '
+            'not a proof over all of them.',
+            'trusted base: the shim semantics (self-tested), preemption only at synchronisation operations, no spurious wake-ups; '
+            'max_enqueuer preset as all callers do; consumers use get/get_batch/iteration.',
+            '§2.2, §3 C04'),
 }
 
 PENDING_REASON = 'check not built yet in this session (work in progress; see DESIGN.md §9 build order) - not claimed until its check exists'
